@@ -36,7 +36,8 @@ TECHNIQUE = 'online reference-model (dict) checker over recorded API histories'
 
 def plan(tier, seed):
     per = 12 if tier == 'quick' else 300
-    return [{'seed': seed * 1000 + i, 'n': per} for i in range(16)]
+    return [{'seed': seed * 1000 + i, 'n': per} for i in range(16)] + \
+        [{'seed': seed * 1000 + 99, 'n': 0, 'big': 300 if tier == 'quick' else 33000}]
 
 
 def required(tier):
@@ -49,6 +50,8 @@ def required(tier):
             'rule:append:unidentified-into-identified', 'rule:lookup-on-unidentified-refused',
             'in-memory:lookup', 'in-memory:saved-then-lookup', 'in-memory:closed',
             'in-memory:sync-before-save',
+            'big-store:more-than-255-trajectories' if tier == 'quick' else
+            'big-store:more-than-32767-trajectories',
         ],
         'counters': {'lookups_while_stale': 20, 'lookups_in_append': 20,
                      'merged_seam_lookups': 10},
@@ -297,6 +300,16 @@ def run_shard(spec, rec):
     from vlib.storeops import Mismatch
 
     workdir = Path(tempfile.mkdtemp(prefix='c08-'))
+    if 'big' in spec:
+        # one long identified store (more than 255 / 32 767 flights), see checks/c07.py
+        from checks.c07 import big_store
+        try:
+            big_store(spec, rec, workdir, identified=True)
+        except Mismatch as m:
+            rec.violation(m.mechanism, m.detail, {'spec': dict(spec), 'k': 'big'})
+        finally:
+            shutil.rmtree(workdir, ignore_errors=True)
+        return
     try:
         ks = [spec['only']] if 'only' in spec else range(spec['n'])
         for k in ks:
